@@ -1,6 +1,6 @@
 //! C09 — circuit structure never depends on witness or instance values.
 //!
-//! Every op of the C04 / C06 / C07 catalogues (and C05's when available) is
+//! Every op of the C04 / C05 / C06 / C07 catalogues is
 //! synthesised with several in-domain witnesses chosen to steer the
 //! off-circuit helpers' data-dependent branches differently; required:
 //! (b) the MockProver tables that constitute the fixed part — fixed columns,
@@ -15,7 +15,7 @@ use serde::{Deserialize, Serialize};
 use vp_alg::Int;
 use vp_circ::{
     e2::{self, Op, OpVisitor},
-    ops_ecc, ops_hash, ops_native,
+    ops_ecc, ops_foreign, ops_hash, ops_native,
 };
 use vpcore::{CaseResult, Failure, Verdict};
 
@@ -134,20 +134,293 @@ impl ops_hash::ScratchVisitor for Runner<'_> {
     }
 }
 
+// ---------------------------------------------------------------------------
+// ZKIR programs: one compiled program, several witnesses
+
+mod zk {
+    use std::collections::HashMap;
+
+    use group::GroupEncoding;
+    use midnight_circuits::{hash::poseidon::PoseidonChip, instructions::hash::HashCPU};
+    use midnight_curves::{Fr as JFr, JubjubSubgroup};
+    use midnight_zk_stdlib::Relation;
+    use midnight_zkir::{IrValue, ZkirRelation};
+    use num_bigint::BigUint;
+    use num_traits::{One, Zero};
+    use serde::{Deserialize, Serialize};
+    use vp_circ::{e2, zkir_gen::*};
+    use vpcore::{CaseResult, Failure, SplitMix, Verdict};
+
+    type F = midnight_curves::Fq;
+
+    fn poseidon_ref(xs: &[BigUint]) -> BigUint {
+        let v: Vec<F> = xs.iter().map(vp_alg::from_big::<F>).collect();
+        vp_alg::to_big(&<PoseidonChip<F> as HashCPU<F, F>>::hash(&v))
+    }
+
+    fn to_ir(v: &MVal) -> Option<IrValue> {
+        Some(match v {
+            MVal::Bool(b) => IrValue::Bool(*b),
+            MVal::Bytes(b) => IrValue::Bytes(b.clone()),
+            MVal::Native(x) => IrValue::Native(vp_alg::from_big_checked::<F>(x)?),
+            MVal::Big(x) => IrValue::BigUint(x.clone()),
+            MVal::Point(p) => {
+                let b: [u8; 32] = compress(p).try_into().ok()?;
+                IrValue::JubjubPoint(Option::from(JubjubSubgroup::from_bytes(&b))?)
+            }
+            MVal::Scalar(x) => IrValue::JubjubScalar(vp_alg::from_big_checked::<JFr>(x)?),
+        })
+    }
+
+    #[derive(Clone, Debug, Serialize, Deserialize)]
+    pub struct ZCase {
+        pub case: Case,
+        pub seed: u64,
+    }
+
+    pub fn strategy() -> CaseStrategy {
+        CaseStrategy { cfg: GenCfg { max_len: 14, err_rate: 0, ..GenCfg::default() }, poseidon: poseidon_ref, post: no_post }
+    }
+
+    /// A value of the type in one of the classes {minimal, maximal, random}.
+    fn value(t: &HType, class: u64, rng: &mut SplitMix) -> MVal {
+        let rnd = |rng: &mut SplitMix, m: &BigUint| BigUint::from_bytes_le(&rng.bytes((m.bits() as usize).div_ceil(8) + 8)) % m;
+        match t {
+            HType::Bool => MVal::Bool(match class { 0 => false, 1 => true, _ => rng.next_u64() & 1 == 1 }),
+            HType::Bytes(n) => MVal::Bytes(match class { 0 => vec![0; *n], 1 => vec![0xff; *n], _ => rng.bytes(*n) }),
+            HType::Native => MVal::Native(match class { 0 => BigUint::zero(), 1 => p_native() - 1u32, _ => rnd(rng, p_native()) }),
+            HType::BigUint(n) => {
+                let m = BigUint::one() << *n;
+                MVal::Big(match class { 0 => BigUint::zero(), 1 => &m - 1u32, _ => rnd(rng, &m) })
+            }
+            HType::JubjubPoint => MVal::Point(match class { 0 => pid(), 1 => jub().g.clone(), _ => pmul(&jub().g, &rnd(rng, r_jubjub())) }),
+            HType::JubjubScalar => MVal::Scalar(match class { 0 => BigUint::zero(), 1 => r_jubjub() - 1u32, _ => rnd(rng, r_jubjub()) }),
+        }
+    }
+
+    /// Witnesses for the program other than the generated one on which evaluation succeeds.
+    fn alternatives(c: &Case, seed: u64, want: usize) -> Vec<Witness> {
+        let loads: Vec<(String, HType)> = c.program.steps.iter().filter_map(|s| if let HOp::Load(t) = s.op { Some(s.outputs.iter().map(move |o| (o.clone(), t))) } else { None }).flatten().collect();
+        let mut rng = SplitMix(seed);
+        let mut out: Vec<Witness> = vec![];
+        for attempt in 0..24u64 {
+            if out.len() >= want {
+                break;
+            }
+            let mut w = c.witness.clone();
+            match attempt {
+                // everything minimal / maximal / random
+                0 | 1 | 2 => {
+                    for (name, t) in &loads {
+                        w.insert(name.clone(), value(t, attempt, &mut rng).to_h());
+                    }
+                }
+                // the generated witness with one (then two) loaded values replaced
+                _ => {
+                    if loads.is_empty() {
+                        break;
+                    }
+                    for _ in 0..1 + attempt % 2 {
+                        let (name, t) = &loads[rng.below(loads.len() as u64) as usize];
+                        let cls = rng.below(4);
+                        w.insert(name.clone(), value(t, cls, &mut rng).to_h());
+                    }
+                }
+            }
+            if w == c.witness || out.contains(&w) {
+                continue;
+            }
+            let it = interpret(&c.program, &w, poseidon_ref);
+            if it.ok() {
+                out.push(w);
+            }
+        }
+        out
+    }
+
+    pub fn run(z: &ZCase) -> CaseResult {
+        let c = &z.case;
+        let it = interpret(&c.program, &c.witness, poseidon_ref);
+        if !it.ok() {
+            return Ok(Verdict::trivial("generated-evaluation-fails"));
+        }
+        let json: &'static str = Box::leak(c.program.render().into_boxed_str());
+        let rel = match vpcore::catch(|| ZkirRelation::read(json)) {
+            Ok(Ok(r)) => r,
+            // agreement of read with the documented semantics is C18's business
+            _ => return Ok(Verdict::trivial("program-not-read")),
+        };
+        let mut ws = vec![c.witness.clone()];
+        ws.extend(alternatives(c, z.seed, 3));
+        let mut first: Option<e2::Structure> = None;
+        let mut used = 0;
+        for (i, w) in ws.iter().enumerate() {
+            let mut m: HashMap<&'static str, IrValue> = HashMap::new();
+            let mut ok = true;
+            for (k, h) in w {
+                match h.to_m().and_then(|v| to_ir(&v)) {
+                    Some(v) => {
+                        m.insert(Box::leak(k.clone().into_boxed_str()), v);
+                    }
+                    None => ok = false,
+                }
+            }
+            if !ok {
+                continue;
+            }
+            let Ok(Ok(pi)) = vpcore::catch(|| rel.public_inputs(m.clone())) else { continue };
+            let Ok(Ok(inst)) = vpcore::catch(|| ZkirRelation::format_instance(&pi)) else { continue };
+            let s = match e2::structure_of_relation(&rel, pi, m, &inst, c.max_bit_len) {
+                Ok(s) => s,
+                Err(e) if i == 0 => return Ok(Verdict::trivial("cannot-synthesise").with(e.chars().take(40).collect::<String>())),
+                Err(e) => return Err(Failure::new("zkir:synthesis-depends-on-witness", format!("witness #{i} {w:?} cannot be synthesised ({e}) although evaluation succeeds and the generated witness can; program {}", c.program.render()))),
+            };
+            used += 1;
+            match &first {
+                None => first = Some(s),
+                Some(f) => {
+                    let what = if f.k != s.k {
+                        "k"
+                    } else if f.n_public != s.n_public {
+                        "number-of-public-inputs"
+                    } else if f.selectors != s.selectors {
+                        "selectors"
+                    } else if f.fixed != s.fixed {
+                        "fixed-columns"
+                    } else if f.permutation != s.permutation {
+                        "copy-constraints"
+                    } else {
+                        ""
+                    };
+                    if !what.is_empty() {
+                        let ops: Vec<_> = c.ops_used().into_iter().collect();
+                        return Err(Failure::new(
+                            format!("zkir:structure-depends-on-witness:{what}:{}", ops.join("+")),
+                            format!("witnesses {:?} and {w:?} give different {what} ({f:?} vs {s:?}) for program {}", ws[0], c.program.render()),
+                        ));
+                    }
+                }
+            }
+        }
+        let mut v = Verdict::of(used >= 2, format!("witnesses:{used}"));
+        for o in c.ops_used() {
+            v = v.with(format!("op:{o}"));
+        }
+        Ok(v)
+    }
+}
+
+// ---------------------------------------------------------------------------
+// parsing gadgets of the standard library (shipped Jwt automaton, base64 decoding)
+
+mod parsing_ops {
+    use midnight_circuits::{instructions::*, parsing::StdLibParser, types::AssignedByte};
+    use midnight_proofs::{
+        circuit::{Layouter, Value},
+        plonk::Error,
+    };
+    use midnight_zk_stdlib::{ZkStdLib, ZkStdLibArch};
+    use num_bigint::BigUint;
+    use vp_circ::e2::{Op, OpVisitor, F};
+
+    #[derive(Clone)]
+    pub enum PK {
+        Jwt { len: usize },
+        B64 { url: bool, padded: bool, len: usize },
+    }
+    #[derive(Clone)]
+    pub struct ParseOp(pub PK);
+
+    impl Op for ParseOp {
+        fn name(&self) -> String {
+            match &self.0 {
+                PK::Jwt { len } => format!("automaton.parse(Jwt,len={len})"),
+                PK::B64 { url, padded, len } => format!("decode_base64{}(len={len},padded={padded})", if *url { "url" } else { "" }),
+            }
+        }
+        fn arch(&self) -> ZkStdLibArch {
+            match &self.0 {
+                PK::Jwt { .. } => ZkStdLibArch { automaton: true, ..Default::default() },
+                PK::B64 { .. } => ZkStdLibArch { base64: true, ..Default::default() },
+            }
+        }
+        fn circuit<L: Layouter<F>>(&self, std: &ZkStdLib, l: &mut L, x: Value<Vec<BigUint>>) -> Result<(), Error> {
+            let len = match &self.0 {
+                PK::Jwt { len } | PK::B64 { len, .. } => *len,
+            };
+            let vals: Vec<Value<u8>> = (0..len).map(|i| x.as_ref().map(|x| u8::try_from(&x[i]).unwrap())).collect();
+            let input: Vec<AssignedByte<F>> = std.assign_many(l, &vals)?;
+            match &self.0 {
+                PK::Jwt { .. } => {
+                    let _ = std.automaton().parse(l, &StdLibParser::Jwt, &input)?;
+                }
+                PK::B64 { url, padded, .. } => {
+                    let _ = if *url { std.base64().decode_base64url(l, &input, *padded)? } else { std.base64().decode_base64(l, &input, *padded)? };
+                }
+            }
+            Ok(())
+        }
+        // nothing is exposed: only the structure of the synthesis is of interest here
+        fn reference(&self, _x: &[BigUint]) -> Option<Vec<F>> {
+            Some(vec![])
+        }
+        fn n_input_scalars(&self) -> usize {
+            0
+        }
+    }
+
+    fn bytes(s: &[u8]) -> Vec<BigUint> {
+        s.iter().map(|b| BigUint::from(*b)).collect()
+    }
+
+    pub fn visit_ops<V: OpVisitor>(v: &mut V, _quick: bool, _seed: u64) {
+        // accepted words of one length: the sample of the in-repo test with other field contents
+        let base = vp_circ::MINIMAL_JWT.as_bytes().to_vec();
+        let swap = |from: &str, to: &str| -> Vec<u8> { String::from_utf8(base.clone()).unwrap().replace(&format!("\"{from}\""), &format!("\"{to}\"")).into_bytes() };
+        let words = vec![base.clone(), swap("fn", "zz"), swap("bd", "00"), swap("gn", "Ab")];
+        let words: Vec<Vec<BigUint>> = words.into_iter().filter(|w| w.len() == base.len()).map(|w| bytes(&w)).collect();
+        v.visit(&ParseOp(PK::Jwt { len: base.len() }), &words);
+        for (url, padded, words) in [
+            (false, true, vec![&b"TWFu"[..], b"AAAA", b"TWE=", b"TQ==", b"////"]),
+            (true, true, vec![&b"TWFu"[..], b"____", b"-A==", b"TWE="]),
+            (false, false, vec![&b"TWFu"[..], b"AAAA", b"++++"]),
+            (false, true, vec![&b"TWFuTWFuTWFu"[..], b"AAAAAAAAAAAA", b"TWFuTWFuTQ==", b"TWFuTWFuTWE="]),
+            (true, false, vec![&b"TWFuTWFu"[..], b"--__--__"]),
+        ] {
+            let len = words[0].len();
+            let ws: Vec<Vec<BigUint>> = words.iter().map(|w| bytes(w)).collect();
+            v.visit(&ParseOp(PK::B64 { url, padded, len }), &ws);
+        }
+    }
+}
+
 fn main() {
     vpcore::main("C09", "exploration", (3600, 21600), |p| {
-        p.assume("witnesses are the representative in-domain tuples provided by the op catalogues of C04/C06/C07 (zero/non-zero, equal/unequal, carries, identity points, different actual lengths and fillers for variable-length gadgets)");
+        p.assume("witnesses are the representative in-domain tuples provided by the op catalogues of C04/C05/C06/C07 (zero/non-zero, equal/unequal, carries, identity points, different actual lengths and fillers for variable-length gadgets)");
         let quick = p.quick();
         let seed = p.seed;
         let vk_every = if quick { 8 } else { 1 };
+        {
+            use proptest::prelude::*;
+            p.sub(
+                "zkir.structure",
+                "generated well-typed ZKIR programs (all operations, <= 14 steps) compiled once and synthesised with the generated witness and up to three others on which evaluation also succeeds (all-minimal, all-maximal, random, one or two loaded values replaced): identical k / fixed columns / selectors / copy constraints / number of public inputs; non-trivial = at least two witnesses synthesised",
+                p.tier.pick(160, 3000),
+                16,
+                || (zk::strategy(), any::<u64>()).prop_map(|(case, seed)| zk::ZCase { case, seed }).boxed(),
+                zk::run,
+            );
+        }
         let mut items = vec![];
-        for (cat, which) in [("native", 0), ("ecc", 1), ("hash", 2), ("hash-scratch", 3)] {
+        for (cat, which) in [("native", 0), ("ecc", 1), ("hash", 2), ("hash-scratch", 3), ("foreign", 4), ("parsing", 5)] {
             let mut c = Collect { catalogue: cat, items: vec![], vk_every };
             match which {
                 0 => ops_native::visit_ops(&mut c, quick, seed),
                 1 => ops_ecc::visit_ops(&mut c, quick, seed),
                 2 => ops_hash::visit_ops(&mut c, quick, seed),
-                _ => ops_hash::visit_scratch_ops(&mut c, quick, seed),
+                3 => ops_hash::visit_scratch_ops(&mut c, quick, seed),
+                4 => ops_foreign::visit_ops(&mut c, quick, seed),
+                _ => parsing_ops::visit_ops(&mut c, quick, seed),
             }
             items.extend(c.items);
         }
@@ -163,6 +436,8 @@ fn main() {
                     "native" => ops_native::visit_ops(&mut r, quick, seed),
                     "ecc" => ops_ecc::visit_ops(&mut r, quick, seed),
                     "hash" => ops_hash::visit_ops(&mut r, quick, seed),
+                    "foreign" => ops_foreign::visit_ops(&mut r, quick, seed),
+                    "parsing" => parsing_ops::visit_ops(&mut r, quick, seed),
                     _ => ops_hash::visit_scratch_ops(&mut r, quick, seed),
                 }
                 r.result.unwrap_or_else(|| Err(Failure::new("harness:op-not-found-in-catalogue", item.op.clone())))
